@@ -458,3 +458,22 @@ def box_text(names, bound=8):
         if P.var_meta(n).get('kind') == 'input':
             out.append("(assert (and (<= (- %d.0) %s) (<= %s %d.0)))" % (bound, n, n, bound))
     return "\n".join(out) + "\n"
+
+
+def exclude_text(model, names, radius="0.25"):
+    """assert that some input variable differs from its value in `model` by at least `radius`"""
+    from fractions import Fraction
+    parts = []
+    for n in names:
+        if P.var_meta(n).get('kind') != 'input' or n not in (model or {}):
+            continue
+        try:
+            v = Fraction(model[n])
+        except Exception:
+            continue
+        lit = P._smt_q(v)
+        parts.append("(>= (- %s %s) %s)" % (n, lit, radius))
+        parts.append("(<= (- %s %s) (- %s))" % (n, lit, radius))
+    if not parts:
+        return ""
+    return "(assert (or %s))\n" % " ".join(parts)
